@@ -28,8 +28,21 @@ ALL_SCOPE = ["g1", "g2", "g3", "schemas", "jobs"]
 
 # ---------------------------------------------------------------- TLC plumbing
 def extra_files():
+    """GraphStore.tla (family store) is instantiated by ServerConc.tla for its state-independent operators;
+    the INSTANCE line is regenerated so that variables added to GraphStore later are bound to a dummy"""
     with open(os.path.join(vlib.SPEC, "store", "GraphStore.tla")) as fh:
-        return {"GraphStore.tla": fh.read()}
+        gs = fh.read()
+    m = re.search(r"^VARIABLES?\s+([^\n]+)$", gs, re.M)
+    if not m:
+        raise Inconclusive("GraphStore.tla: VARIABLES line not found")
+    others = [v.strip() for v in m.group(1).split("\\*")[0].split(",") if v.strip() and v.strip() != "gs"]
+    with open(os.path.join(vlib.SPEC, FAMILY, "ServerConc.tla")) as fh:
+        sc = fh.read()
+    line = "GS == INSTANCE GraphStore WITH gs <- store, HistLen <- 0" + "".join(", %s <- <<>>" % v for v in others)
+    sc, k = re.subn(r"^GS == INSTANCE GraphStore WITH [^\n]*$", lambda _: line, sc, flags=re.M)
+    if k != 1:
+        raise Inconclusive("ServerConc.tla: INSTANCE line not found")
+    return {"GraphStore.tla": gs, "ServerConc.tla": sc}
 
 
 def model_cfg(n, k, alpha, invs):
@@ -153,6 +166,20 @@ def parse_races(text):
         in_grip = any(f.startswith("github.com/bmeg/grip/") for st in stacks[:2] for f in st)
         out.append(("race %s / %s" % tuple(sorted(tops)), block.strip(), in_grip))
     return out
+
+
+def blocked_site(stacks):
+    """the grip frame most handler goroutines are blocked in"""
+    sites = {}
+    for g in re.split(r"\n\s*\n", stacks):
+        if "github.com/bmeg/grip/server.(*GripServer)" not in g:
+            continue
+        m = re.search(r"^(github\.com/bmeg/grip/[^\s(]+(?:\([^)]*\))?[^\s(]*)\(", g, re.M)
+        if m:
+            sites[short(m.group(1))] = sites.get(short(m.group(1)), 0) + 1
+    if not sites:
+        return "(no handler goroutine found)"
+    return max(sorted(sites), key=lambda k: sites[k])
 
 
 # ---------------------------------------------------------------- traces
@@ -381,6 +408,7 @@ def run(ctx):
     # ---- crashes, hangs, race reports
     lines, byid = [], {}
     races = {}
+    late = []
     for r in reqs + probes:
         o = outs[r["i"]]
         if "harness_err" in o or "died" in o or "bad" in o or "marshal_err" in o:
@@ -401,10 +429,24 @@ def run(ctx):
             judge_probe(ctx, r, o)
             continue
         if o.get("deadline"):
-            raise Inconclusive("history %d hit the 45 s deadline of the harness" % r["i"])
+            late.append(r)
+            continue
         line = trace_line(r["i"], r["sessions"], o)
         lines.append(line)
         byid[r["i"]] = (r, o, line)
+    # calls that did not return within the deadline: a hang is reported only if it happens again
+    if late:
+        again = run_harness(ctx, late[:4], False, "late", 2)
+        for r in late[:4]:
+            o2 = again[r["i"]]
+            if o2.get("deadline") or "hang" in o2:
+                ctx.diverge("hang %s" % blocked_site(o2.get("stacks") or o2.get("trace") or ""),
+                            "calls of concurrent sessions did not return within 45 s, twice (handlers blocked)",
+                            dict(sessions=r["sessions"], procs=r["procs"], stacks=(o2.get("stacks") or o2.get("trace") or "")[:8000]))
+            else:
+                ctx.notes.append("history %d missed the 45 s deadline once and completed when repeated (machine load): dropped" % r["i"])
+        if len(late) > 4:
+            ctx.notes.append("%d more histories missed the deadline and were not repeated" % (len(late) - 4))
     for sig, occ in sorted(races.items()):
         r, text, in_grip = occ[0]
         if not in_grip:
